@@ -104,6 +104,8 @@ func C09(c *Ctx) {
 	r.Rule("R09.6", "no stale chain meta: a value read from the old chain meta (height, hash, interchain count) that is stored into the chain meta a function persists / installs (persistChainMeta, UpdateChainMeta) is read after the last update of that field on the path - a copy taken before the removal loop of a rollback misses the loop's subtractions.")
 	r.Rule("R09.5", "interchain count: persisting and rolling back adjust InterchainTxCount by the same function of InterchainMeta.Counter: the sum of len(Slice), every addition into the running count being executed for every element (an increment behind a test of the element counts a subset, and the two sides drift apart).")
 	r.Rule("R09.8", "a removed block takes its own index entries with it: every key that removeChainDataOnBlock deletes is built from the height it was asked to remove or from the block / interchain meta it loaded under that height - never from the chain meta (the head), whose hash belongs to another block as soon as more than one block is rolled back.")
+	r.Rule("R09.9", "the interchain count counts each request once (shared with C02 R02.7): "+perBlockResetText)
+	c.perBlockReset("R09.9")
 	r.NotDecided = append(r.NotDecided, "blockfile internals (pinned dependency); value-level equality of stored and recomputed roots")
 
 	cha := core.NewCHA(c.P)
